@@ -295,6 +295,11 @@ Qed.
 
 Definition valid_enc (s : string) : Prop := pct_decode s <> None.
 
+Definition valid_encb (s : string) : bool := match pct_decode s with Some _ => true | None => false end.
+
+Lemma valid_encb_spec s : valid_encb s = true <-> valid_enc s.
+Proof. unfold valid_encb, valid_enc. destruct (pct_decode s); split; congruence. Qed.
+
 Lemma spec_decode_valid k s : spec_decode k s <> None <-> valid_enc s.
 Proof.
   unfold valid_enc.
@@ -879,4 +884,50 @@ Proof.
   split; [vm_compute; reflexivity|]. split; [reflexivity|].
   split; [constructor; [unfold valid_enc; vm_compute; discriminate | constructor]|].
   vm_compute. repeat split.
+Qed.
+
+(* ------------------------------------------------------------------ statements as they appear in Properties/C03.v *)
+
+Lemma method_list_semantics_full : forall ms l,
+  create_method_matcher ms = Ok l ->
+  (forall m, mem m l = true <->
+     (((has_bang m = false /\ m <> "ALL" /\ In m ms) \/ (In "ALL" ms /\ In m nine)) /\ ~ In ("!" ++ m) ms)) /\
+  (forall q, guard_F4 ms = false -> method_match l q = spec_method ms (q_method q)).
+Proof.
+  intros ms l H. split.
+  - intro m. rewrite (created_methods _ _ H). unfold spec_listed.
+    rewrite andb_true_iff, orb_true_iff, !andb_true_iff, !negb_true_iff, !mem_In, mem_false, String.eqb_neq.
+    tauto.
+  - intros q G. exact (method_list_semantics _ _ q H G).
+Qed.
+
+Lemma decode_per_setting : forall sl v d,
+  spec_decode (keep_slash_of sl) v = Some d ->
+  (sl = SOn \/ (guard_F7_val v = false /\ guard_F8_val d = false)) ->
+  unescape v sl = d.
+Proof.
+  intros sl v d Hd [->|[H7 H8]].
+  - exact (on_decode _ _ Hd).
+  - destruct sl; [exact (nd_decode _ _ Hd H7 H8) | exact (on_decode _ _ Hd) | exact (nd_decode _ _ Hd H7 H8)].
+Qed.
+
+Lemma captures_exact : forall sl q names segs caps rej,
+  (slash_eqb sl SOff && contains "%2f" (q_rawpath q)) = false ->
+  execute sl q (map_of (named_pairs names segs)) = (caps, rej) ->
+  rej = spec_rejected sl q /\
+  (rej = false -> forall sc, spec_captures sl names segs = Some sc ->
+     caps_guard_F7 sl (named_pairs names segs) = false ->
+     caps_guard_F8 sl (named_pairs names segs) = false -> caps = sc).
+Proof.
+  intros sl q names segs caps rej H7 E. generalize (captures_semantics sl q names segs H7).
+  rewrite E. tauto.
+Qed.
+
+Lemma unnamed_not_exposed : forall names segs k v,
+  In (k, v) (named_pairs names segs) -> k <> "*".
+Proof.
+  induction names as [|n nr IH]; intros [|s sr] k v; simpl; try tauto.
+  destruct (String.eqb n "*") eqn:E.
+  - apply IH.
+  - intros [H|H]; [inversion H; subst; apply String.eqb_neq; assumption | exact (IH _ _ _ H)].
 Qed.
